@@ -81,7 +81,10 @@ class Instance:
         objective = sp["mode"]
         self.dcop = DCOP("verif", objective)
         for v, n in sp["vars"].items():
-            vals = list(range(n)) if kind == "int" else ["v%d" % i for i in range(n)]
+            # "own": str values that are distinct from one variable to the next (a value leaking from a neighbour is then
+            # never a member of the receiving variable's domain)
+            vals = (list(range(n)) if kind == "int" else ["%s_v%d" % (v, i) for i in range(n)] if kind == "own"
+                    else ["v%d" % i for i in range(n)])
             d = Domain("d_" + v, "", vals)
             self.domains[v] = vals
             if v in sp.get("varcosts", []):
